@@ -118,6 +118,7 @@ type Spec struct {
 	Features        []string
 	ExtPkgs         []ExtPkg
 	ExtraDecl       string            // extra package-level declarations (hostile identifiers)
+	GeneratedDecl   string            // package-level declarations kept in names_string.go, a file carrying the "Code generated ... DO NOT EDIT." header of another tool
 	ExtDecl         map[string]string // extra declarations per sibling package directory
 	Dynamic         bool              // all needed types carry identity; runnable
 	InvMode         string            // how the static checks invoke the generator: "" (by position), "one" (all files in one run), "per" (one run per file), "pair" (one run over PairWith's files, then this package's), "first" (generated by its partner's run)
@@ -126,9 +127,11 @@ type Spec struct {
 	WireLocalHelper bool              // wire family: one provider is wrapped by a function declared in wire.go itself
 	WireNoSets      bool              // wire family: every element stays at the top level of wire.Build (one wire file)
 	DotImport       string            // Dir of a sibling package the declaration files import with a dot
+	SetDeclForm     int               // 0: by seed and name; 1..3: one var per set / var block / multi-name specifications
 	Parens          bool              // set references and provider expressions are written in parentheses
 	NoForward       bool              // main package gets no helpers for sibling-package types (so it need not import those packages)
 	WireAltAliases  bool              // wire_sets.go imports every sibling package under another alias than wire.go
+	WireBindsStay   bool              // a wire.Bind never leaves the set that lists its provider
 	WireAllInSets   bool              // every wire element goes into a named set (wire_sets.go)
 	KessokuAlias    string            // declaration files import kessoku under this alias (and the package declares an identifier "kessoku")
 	Seed            int64
